@@ -21,7 +21,7 @@ class BasePBKDF2CryptInfo:
         raise NotImplementedError
 
     REGEX = re.compile(
-        r"^\$(?P<digest_name>[a-z0-9-]+)\$(?P<rounds>\d+)\$(?P<salt>.+)\$(?P<hash>.+)$"
+        r"^\$(?P<digest_name>[a-z0-9-]+)\$(?P<rounds>[1-9][0-9]*)\$(?P<salt>.+)\$(?P<hash>.+)$"
     )
 
 
